@@ -18,6 +18,8 @@ LEVEL = "other"
 def run(chk):
     cfgs = ["base", "z"]
     chk.configs = cfgs
+    chk.rule("OUTPUT.reset", "every ClipperOffset::Execute overload empties the caller's container before offset paths are appended to it (directly or through the `solution` "
+             "pointer): the result is the offset of the input, not united with what the container held")
     chk.rule("THRESHOLD.bisector", "the length below which NormalizeVector gives up (AlmostZero's epsilon) is not above the shortest bisector sum DoSquare can see, "
              "sqrt(2 - 2C) with C the cosine above which OffsetPoint sends a join to DoMiter - both literals read from the code")
     chk.rule("OFFSET.cleanup", "clean-up union: Union with Negative iff paths reversed else Positive, into the tree iff requested, "
@@ -47,6 +49,8 @@ def run(chk):
         e14.rule_offset(db, chk, cfg)
         e12.join_dispatch_table(db, chk, cfg)
         e12.bisector_threshold_rule(db, chk, cfg)
+        from ..engines import e10_pipeline as _e10o
+        _e10o.rule_outputs_reset(db, chk, cfg, db.find("ClipperOffset::Execute"))
         # the orientation-corrected delta: only the functions that derive group_delta_ read the caller's delta_
         rec = db.record("ClipperOffset")
         fid = [fd["id"] for fd in rec.fields if fd.get("name") == "delta_"]
